@@ -302,20 +302,20 @@ package dag
 //@   assume-benign
 
 //@ func (*state).Add
-//@   prop C06 C08 C14
+//@   prop C06 C08 C14 C15
 //@   call (go-stoabs.KVStore).Write #1 requires [write-only-after-successful-verification]
 //@        did(call (go-stoabs.KVStore).Read #1) && isNilIface(ret(call (go-stoabs.KVStore).Read #1)) && present == false
 //@     && did(call (*state).verifyTX #1) && isNilIface(ret(call (*state).verifyTX #1)) && arg(call (*state).verifyTX #1, 2) == transaction
 //@   ensures [verification-failure-is-reported] did(call (*state).verifyTX #1) && !isNilIface(ret(call (*state).verifyTX #1)) ==> !isNilIface(result)
 
 //@ func (*state).Add$1
-//@   prop C06
+//@   prop C06 C15
 //@   ensures [present-or-verified] isNilIface(result) ==> ret(call (*dag).isPresent #1) == true
 //@        || (did(call (*state).verifyTX #1) && isNilIface(ret(call (*state).verifyTX #1)) && arg(call (*state).verifyTX #1, 1) == tx && arg(call (*state).verifyTX #1, 2) == transaction)
 //@   ensures [presence-checked-by-ref] arg(call (*dag).isPresent #1, 2) == transaction.Ref() && arg(call (*dag).isPresent #1, 1) == tx && present == ret(call (*dag).isPresent #1)
 
 //@ func (*state).Add$2
-//@   prop C06 C08 C14
+//@   prop C06 C08 C14 C15
 //@   call (*dag).add #1 requires [absent-in-this-write-tx-and-payload-hash-checked]
 //@        did(call (*dag).isPresent #1) && ret(call (*dag).isPresent #1) == false
 //@     && arg(call (*dag).isPresent #1, 1) == tx && arg(call (*dag).isPresent #1, 2) == transaction.Ref()
@@ -558,3 +558,12 @@ package dag
 //@   ensures [no-key-without-a-resolve-by-this-call] isNilIface(result.1) ==> did(call resolvePublicKey #1) && isNilIface(ret(call resolvePublicKey #1).1)
 //@        && result.0 == ret(call resolvePublicKey #1).0
 //@   ensures [other-errors-are-final] did(call resolvePublicKey #1) && !isNilIface(ret(call resolvePublicKey #1).1) && ret(call resolvePublicKey #1).1 != resolver.ErrNotFound ==> !isNilIface(result.1)
+
+// ---- C15: the participant list that is encrypted into a private transaction names EVERY participant, each with a
+// key of its own: a participant is never silently left out (a list that came out empty would make the transaction
+// public: its payload would be handed to every peer) ----
+//@ func (PAL).Encrypt
+//@   prop C15
+//@   loop 1 invariant len(encryptionKeys) == $i && len(recipients) == $i
+//@   loop 2 invariant len(cipherTexts) == $i
+//@   ensures [one-ciphertext-per-participant] isNilIface(result.1) ==> len(result.0) == len(pal)
